@@ -517,6 +517,10 @@ def storeNode : Nat → Nat → M (Nat × List (Nat × List HLink × Nat))
       let n ← intern { keys := nd.keys, vals := nd.vals, links := trimmed }
       pure (n, cms ++ [(a, links', n)])
 
+/-- `cache.Add(prefix/name, node)` -/
+def cacheAdd (n a : Nat) : M Unit := fun s =>
+  .ok () (if s.useCache then { s with cache := (n, a) :: s.cache } else s)
+
 /-- the commit closures (store.go:274-284), run by `flush` after every write has succeeded -/
 def commitAll (m : Nat) : List (Nat × List HLink × Nat) → M Unit
   | [] => pure ()
@@ -525,7 +529,7 @@ def commitAll (m : Nat) : List (Nat × List HLink × Nat) → M Unit
     (if nd.shared then pure () else do
       write m a { nd with source := some n }
       publish m a links)
-    (fun s => .ok () (if s.useCache then { s with cache := (n, a) :: s.cache } else s))
+    cacheAdd n a
     commitAll m rest
 
 /-- `flush` / `MakeRoot` (pub.go:262-366) on a healthy store: the name of the root (0 = none) -/
